@@ -254,7 +254,9 @@ def check_operators(run, rng, engine: str, case: Any) -> None:
                       engine=engine, key='kv-add-wrong-result')
     # result independent of operands
     if c.has_children() and len(c):
-        for ch in c:
+        for ch in list(c.iter_tree(blocks=True)):
+            if ch is c:
+                continue
             if ch.has_children():
                 ch.append(Keyvalues('zz', '1'))
             else:
@@ -297,8 +299,13 @@ def check_operators(run, rng, engine: str, case: Any) -> None:
         warnings.simplefilter('ignore')
         a2 += b2
         a2.extend(b2)
-    for ch in a2:
-        if not ch.has_children():
+    for ch in list(a2.iter_tree(blocks=True)):   # at every depth: what was taken over from b is a copy all the way down
+        if ch is a2:
+            continue
+        if ch.has_children():
+            ch.append(Keyvalues('deep_mut', '1'))
+            ch.name = (ch.real_name or '') + '_x'
+        else:
             ch.value = 'm'
     if kv_snapshot(b2) != sb2:
         run.violation('a += b / a.extend(b) changed or aliased b', case=case, engine=engine, key='kv-iadd-aliases')
@@ -375,6 +382,7 @@ def check_operators(run, rng, engine: str, case: Any) -> None:
              ('forward', lambda x: x.forward()), ('left', lambda x: x.left()), ('up', lambda x: x.up()), ('str', str), ('repr', repr),
              ('join', lambda x: x.join(' ')), ('as_tuple', lambda x: x.as_tuple()), ('len_sq', lambda x: x.mag_sq()),
              ('axis', lambda x: x.axis()), ('other_axes', lambda x: x.other_axes('x')), ('with_axes', lambda x: x.with_axes('x', 5.0)),
+             ('clamped', lambda x: x.clamped(Vec(-1e9, -1e9, -1e9), Vec(1e9, 1e9, 1e9))), ('clamped2', lambda x: x.clamped(maxs=Vec(1, 1, 1))),
              ('lerp', lambda x: x.lerp(0.5, 0.0, 1.0, Vec(0, 0, 0), Vec(1, 1, 1))), ('norm_mask', lambda x: x.norm_mask(Vec(0, 0, 1))),
              ('bbox', lambda x: Vec.bbox(x, Vec(1, 1, 1))), ('iter_line', lambda x: list(x.iter_line(Vec(3, 0, 0), 1))[:3])]
     for o in lefts[:6]:
@@ -387,6 +395,10 @@ def check_operators(run, rng, engine: str, case: Any) -> None:
                 except Exception:   # not applicable to this kind of object / these arguments: nothing to judge
                     continue
             run.count('math_operator_applications')
+            if res is o and isinstance(o, (Vec, Angle, Matrix)):
+                run.violation(f'{name} of a mutable {type(o).__name__} handed back the object itself instead of a new value', case=case, engine=engine,
+                              key='math-operator-aliases')
+                return
             if isinstance(res, (Vec, Angle, Matrix)) and res is not o:
                 if isinstance(res, Vec):
                     res += Vec(7, 7, 7)
